@@ -50,6 +50,11 @@ type monC11 struct {
 	Restart  bool // a start was issued while a run was pending
 	TextSent [2]int
 	TextGot  [2]int
+	Mode     byte   // 0: further starts back-to-back; 'r': the initiator may start again at any time; 'x': the other side may
+	Cur      int    // side that issued the latest start
+	Answered bool   // somebody has provided a secret since the latest start
+	Dirty    bool   // a restart crossed messages of the run it replaces: the protocol does not promise that run a verdict
+	Flight   [2]int // deliveries to this side until the latest start message addressed to it has been received
 }
 
 // id: "v<2|3>/<pair>/<q|noq>/init<A|B>/S<starts>/T<traffic>"
@@ -75,6 +80,10 @@ func verifC11Sys(id string, seed int64) *verifSys {
 	}
 	init := int(parts[3][4] - 'A')
 	fmt.Sscanf(parts[4], "S%d", &starts)
+	var mode byte
+	if l := parts[4][len(parts[4])-1]; l == 'r' || l == 'x' {
+		mode = l
+	}
 	fmt.Sscanf(parts[5], "T%d", &traffic)
 	secret := func(i int) []byte {
 		if i == 0 {
@@ -88,7 +97,7 @@ func verifC11Sys(id string, seed int64) *verifSys {
 		w := verifEstablished(seed, v, 0)
 		w.P[0].Rec.take()
 		w.P[1].Rec.take()
-		w.Mon = &monC11{Init: init, Starts: starts, Traffic: traffic, Ticks: 1, LastEv: [2]int{-1, -1}}
+		w.Mon = &monC11{Init: init, Starts: starts, Traffic: traffic, Ticks: 1, LastEv: [2]int{-1, -1}, Mode: mode, Cur: init}
 		return w
 	}
 	sys.Evs = func(w *verifWorld) []verifEv {
@@ -106,6 +115,12 @@ func verifC11Sys(id string, seed int64) *verifSys {
 		// (a restart that crosses the peer's answer in flight aborts both runs by design of the protocol)
 		if m.Starts > 0 && (m.Started == 0 || (len(w.Q[0])+len(w.Q[1]) == 0 && terminal(m.LastEv[0]) && terminal(m.LastEv[1]) && !m.Asked[0] && !m.Asked[1])) {
 			evs = append(evs, verifEv{K: "smpstart", I: m.Init})
+		} else if m.Starts > 0 && m.Mode == 'r' {
+			// the user enters the secret again while the run is still pending
+			evs = append(evs, verifEv{K: "smpstart", I: m.Init})
+		} else if m.Starts > 0 && m.Mode == 'x' {
+			// the other user starts a run of their own (instead of answering, or at any other moment)
+			evs = append(evs, verifEv{K: "smpstart", I: 1 - m.Init})
 		}
 		for i := 0; i < 2; i++ {
 			if m.Asked[i] {
@@ -143,21 +158,38 @@ func verifC11Sys(id string, seed int64) *verifSys {
 			m.Starts--
 			if m.Started > 0 && (m.LastEv[0] != int(SMPEventSuccess) && m.LastEv[0] != int(SMPEventFailure) && m.LastEv[0] != int(SMPEventAbort) || len(w.Q[0])+len(w.Q[1]) > 0) {
 				m.Restart = true
+				// the replaced run is only guaranteed to disappear without trace if nobody has answered it yet and no
+				// start message is on its way to the side that starts now
+				if m.Answered || m.Flight[e.I] > 0 {
+					m.Dirty = true
+				}
 			}
 			m.Started++
+			m.Cur = e.I
+			m.Answered = false
+			m.Asked[e.I] = false // whoever starts a run of their own no longer owes an answer
 			r = p.StartSMP(question, secret(e.I))
 			if r.Err != "" {
 				bad("start-error", "StartAuthenticate failed: %s", r.Err)
 			}
+			m.Flight[1-e.I] = len(w.Q[1-e.I]) + len(r.Out)
 		case "smpanswer":
 			m.Asked[e.I] = false
 			m.NAnswer[e.I]++
+			m.Answered = true
+			stale := m.Flight[e.I] > 0 || m.LastEv[e.I] == int(SMPEventAbort)
+			if stale {
+				m.Dirty = true // answers a question that a restart under way has withdrawn
+			}
 			r = p.AnswerSMP(secret(e.I))
-			if r.Err != "" {
+			if r.Err != "" && !stale {
 				bad("answer-error", "ProvideAuthenticationSecret failed: %s", r.Err)
 			}
 		case "deliver":
 			r = p.Receive(w.pop(e.I))
+			if m.Flight[e.I] > 0 {
+				m.Flight[e.I]--
+			}
 			if r.HasPln {
 				m.TextGot[e.I]++
 			}
@@ -209,13 +241,25 @@ func verifC11Sys(id string, seed int64) *verifSys {
 		bad := func(sig, format string, a ...interface{}) {
 			fs = append(fs, verifFinding{"C11:" + sig, fmt.Sprintf(format, a...) + " [" + id + "]"})
 		}
-		resp := 1 - m.Init
+		ini := m.Cur
+		resp := 1 - ini
 		if m.Started == 0 {
 			return nil
 		}
-		if equal {
-			if m.LastEv[m.Init] != int(SMPEventSuccess) || m.LastEv[resp] != int(SMPEventSuccess) {
-				bad("no-success-with-equal-secrets", "equal secrets (%s) but at quiescence the last SMP events are %d (initiator) / %d (responder); success A=%d B=%d", pair.Name, m.LastEv[m.Init], m.LastEv[resp], m.Succ[0], m.Succ[1])
+		if m.Dirty {
+			// the restart crossed the run it replaces: no verdict is promised for it, but nobody may report success with
+			// different secrets (checked at every step) and a fresh run must work
+			w2 := verifClone(w)
+			verdict := c11FreshRun(w2, ini, question, secret)
+			if equal && verdict != "success/success" {
+				bad("no-success-after-crossed-restart", "equal secrets (%s): after a restart that crossed the peer's answer, a fresh run ends with %s", pair.Name, verdict)
+			}
+			if !equal && strings.Contains(verdict, "success") {
+				bad("success-with-different-secrets", "fresh run after a crossed restart: %s", verdict)
+			}
+		} else if equal {
+			if m.LastEv[ini] != int(SMPEventSuccess) || m.LastEv[resp] != int(SMPEventSuccess) {
+				bad("no-success-with-equal-secrets", "equal secrets (%s) but at quiescence the last SMP events are %d (initiator) / %d (responder); success A=%d B=%d; restart=%v", pair.Name, m.LastEv[ini], m.LastEv[resp], m.Succ[0], m.Succ[1], m.Restart)
 			}
 		} else {
 			if m.Succ[0]+m.Succ[1] > 0 {
@@ -224,15 +268,19 @@ func verifC11Sys(id string, seed int64) *verifSys {
 			if m.Fail[resp] == 0 {
 				bad("mismatch-not-reported", "different secrets (%s) but the responder, who can tell, never reported failure", pair.Name)
 			}
-			if m.Fail[m.Init]+m.Abort[m.Init] == 0 {
+			if m.Fail[ini]+m.Abort[ini] == 0 {
 				bad("mismatch-not-reported-to-initiator", "different secrets (%s) but the initiator saw neither failure nor abort", pair.Name)
 			}
 		}
-		if m.NAsk[resp] != m.NAnswer[resp] || m.NAsk[m.Init] != 0 {
-			bad("secret-asked-wrong-number-of-times", "asks: initiator %d responder %d, answers %d", m.NAsk[m.Init], m.NAsk[resp], m.NAnswer[resp])
-		}
-		if !m.Restart && m.NAsk[resp] != m.Started {
-			bad("secret-asked-wrong-number-of-times", "%d run(s) but the responder was asked %d time(s)", m.Started, m.NAsk[resp])
+		if !m.Restart {
+			if m.NAsk[resp] != m.NAnswer[resp] || m.NAsk[ini] != 0 {
+				bad("secret-asked-wrong-number-of-times", "asks: initiator %d responder %d, answers %d", m.NAsk[ini], m.NAsk[resp], m.NAnswer[resp])
+			}
+			if m.NAsk[resp] != m.Started {
+				bad("secret-asked-wrong-number-of-times", "%d run(s) but the responder was asked %d time(s)", m.Started, m.NAsk[resp])
+			}
+		} else if !m.Dirty && m.NAnswer[resp] == 0 {
+			bad("secret-asked-wrong-number-of-times", "the responder of the restarted run was never asked for the secret")
 		}
 		for i := 0; i < 2; i++ {
 			if m.TextGot[i] != m.TextSent[1-i] {
@@ -246,6 +294,44 @@ func verifC11Sys(id string, seed int64) *verifSys {
 		return fmt.Sprintf("succ=%v fail=%v abort=%v asks=%v restart=%v keyids=%d/%d", m.Succ, m.Fail, m.Abort, m.NAsk, m.Restart, w.P[0].C.keys.ourKeyID, w.P[1].C.keys.ourKeyID)
 	}
 	return sys
+}
+
+// c11FreshRun drives one more run from a quiescent world and reports the last SMP events "initiator/responder"
+func c11FreshRun(w *verifWorld, ini int, question string, secret func(int) []byte) string {
+	last := [2]string{"none", "none"}
+	note := func(i int, r verifResult) {
+		w.push(i, r.Out)
+		for _, ev := range r.Events {
+			if ev.Kind != 'P' {
+				continue
+			}
+			switch SMPEvent(ev.Code) {
+			case SMPEventSuccess:
+				last[i] = "success"
+			case SMPEventFailure:
+				last[i] = "failure"
+			case SMPEventAbort:
+				last[i] = "abort"
+			case SMPEventAskForSecret, SMPEventAskForAnswer:
+				a := w.P[i].AnswerSMP(secret(i))
+				w.push(i, a.Out)
+			case SMPEventInProgress:
+			default:
+				last[i] = SMPEvent(ev.Code).String()
+			}
+		}
+	}
+	w.P[0].Rec.take()
+	w.P[1].Rec.take()
+	note(ini, w.P[ini].StartSMP(question, secret(ini)))
+	for n := 0; n < 40 && len(w.Q[0])+len(w.Q[1]) > 0; n++ {
+		for i := 0; i < 2; i++ {
+			if len(w.Q[i]) > 0 {
+				note(i, w.P[i].Receive(w.pop(i)))
+			}
+		}
+	}
+	return last[ini] + "/" + last[1-ini]
 }
 
 // ---------------------------------------------------------------------------
@@ -441,7 +527,8 @@ func init() {
 					ini := "AB"[(i/2)%2]
 					ids = append(ids, fmt.Sprintf("v%d/%s/%s/init%c/S1/T1", v, p.Name, q, ini))
 				}
-				ids = append(ids, "v3/a-a/noq/initA/S2/T0", "v2/a-b/q/initB/S2/T0", "v2/a-a/q/initB/S1/T2")
+				ids = append(ids, "v3/a-a/noq/initA/S2/T0", "v2/a-b/q/initB/S2/T0", "v2/a-a/q/initB/S1/T2",
+					"v3/a-a/q/initA/S2r/T0", "v2/a-a/noq/initB/S2x/T0", "v3/a-b/noq/initB/S2r/T0", "v2/a-b/q/initA/S2x/T0")
 			} else {
 				for _, p := range pairs {
 					for _, v := range []int{2, 3} {
@@ -454,6 +541,11 @@ func init() {
 				}
 				for _, p := range []string{"a-a", "a-b", "long-last-bit", "empty-equal"} {
 					ids = append(ids, fmt.Sprintf("v3/%s/noq/initA/S2/T1", p), fmt.Sprintf("v2/%s/q/initB/S2/T1", p), fmt.Sprintf("v3/%s/q/initB/S1/T2", p))
+					for _, v := range []int{2, 3} {
+						for _, md := range []string{"r", "x"} {
+							ids = append(ids, fmt.Sprintf("v%d/%s/q/initA/S2%s/T1", v, p, md), fmt.Sprintf("v%d/%s/noq/initB/S2%s/T0", v, p, md), fmt.Sprintf("v%d/%s/noq/initA/S3%s/T0", v, p, md))
+						}
+					}
 				}
 			}
 			for _, id := range ids {
